@@ -117,4 +117,42 @@ theorem open_dependency_overrides_disk {α : Type} (analyse : String → String 
 
 theorem closed_dependency_reads_disk (d : String) : effectiveText none d = d := rfl
 
+/-! ### Schedule independence; every history has a valid (sequential) schedule -/
+
+/-- Schedule independence: whatever order and delay the handlers' store steps run in, the final document
+store is the same function of the notification history alone. -/
+theorem schedule_independent (h : List Note) (s₁ s₂ : List Step) (h1 : Valid h s₁) (h2 : Valid h s₂) :
+    (runNew h s₁).docs = (runNew h s₂).docs := by
+  funext u
+  rw [converges h s₁ h1 u, converges h s₂ h2 u]
+
+/-- In particular the concurrent server agrees with a sequential one (each handler stores before the next
+notification is received), for any schedule that is valid for the same history. -/
+theorem agrees_with_any_reference_run (h : List Note) (ref sched : List Step) (hr : Valid h ref)
+    (hv : Valid h sched) (u : Nat) : (runNew h sched).docs u = (runNew h ref).docs u := by
+  rw [schedule_independent h sched ref hv hr]
+
+/-- The sequential schedule: every handler stores before the next notification is received. -/
+def seqFrom (k : Nat) : Nat → List Step
+  | 0 => []
+  | m + 1 => .recv k :: .store k :: seqFrom (k + 1) m
+
+theorem validGo_seq (n k m : Nat) (h : k + m = n) : validGo n (seqFrom k m) k [] = true := by
+  induction m generalizing k with
+  | zero => simp [seqFrom, validGo]; omega
+  | succ m ih =>
+    have hk : k < n := by omega
+    simp [seqFrom, validGo, hk]
+    exact ih (k + 1) (by omega)
+
+/-- Every history has a valid schedule (so `converges` and `schedule_independent` are never vacuous), and every
+valid schedule ends in the state the sequential server reaches. -/
+theorem sequential_is_valid (h : List Note) : Valid h (seqFrom 0 h.length) :=
+  validGo_seq h.length 0 h.length (by omega)
+
+theorem agrees_with_sequential (h : List Note) (sched : List Step) (hv : Valid h sched) :
+    (runNew h sched).docs = (runNew h (seqFrom 0 h.length)).docs :=
+  schedule_independent h sched _ hv (sequential_is_valid h)
+
+
 end Incan.Lsp
